@@ -48,7 +48,7 @@ def gen_arr(rng, maxops):
         elif c < 0.96:
             ops.append(rng.choice(["first", "last"]))
         else:
-            ops.append(rng.choice(["len", "len", "ss:%d" % rng.choice([0, 1, 3, 4, 5, 8, 9, 16, 17, size, size + 1, max(0, size - 1)])]))
+            ops.append(rng.choice(["len", "sort", "sort", "ss:%d" % rng.choice([0, 1, 3, 4, 5, 8, 9, 16, 17, size, size + 1, max(0, size - 1)])]))
     if rng.random() < 0.4:
         ops.append("fin")
     if rng.random() < 0.3:
@@ -68,7 +68,9 @@ for _k in ("llist", "slist", "ht", "buf"):
 
 
 def gen(rng, tier, n):
-    maxops = 120 if tier == "quick" else 600
+    # thorough: longer sequences, but the per-op full dumps make the output quadratic in the
+    # length; 300 keeps a thorough run (10 k cases) under ~15 min and ~300 MB of driver output
+    maxops = 120 if tier == "quick" else 300
     kinds = sorted(KINDS)
     out = []
     for i in range(n):
